@@ -137,6 +137,12 @@ impl IotaDID {
   ///
   /// Returns `Err` if the input does not conform to the [`IotaDID`] specification.
   pub fn try_from_core(did: CoreDID) -> Result<Self> {
+    // The hex digits of the tag are case-insensitive: keep the lower-case normal form that `parse` establishes.
+    let did: CoreDID = if did.as_str().bytes().any(|byte| byte.is_ascii_uppercase()) {
+      CoreDID::parse(did.as_str().to_lowercase())?
+    } else {
+      did
+    };
     Self::check_validity(&did)?;
 
     Ok(Self(Self::normalize(did)))
